@@ -1,6 +1,6 @@
 (* C13/Driver.v — correspondence entry point: the "proc_limits" names of print_json for a limits
    stream, with the HashMap iterated in reverse insertion order (any order gives the same). *)
-From RM Require Import C13.Model.
+From RM Require Import C13.Model C13.Linux.
 Open Scope Z_scope.
 Definition run_limits_json (data : bytes) : option (list bytes) :=
   match limits_json (@rev entry) data with Ret l => Some l | _ => None end.
@@ -9,3 +9,7 @@ Definition run_limits_json (data : bytes) : option (list bytes) :=
    reverse order of the case, then sorted by the code) *)
 Definition run_certs (certs : list (bytes * list bytes)) (mods : list bytes) : list (option bytes) :=
   map (cert_of bytes_eqb bytes_ltb (rev certs)) mods.
+
+(* L cases: what print_json / print report from the lsb-release, /proc/self/status and /proc/cpuinfo streams *)
+Definition run_linux (lsbdata status cpuinfo : bytes) : (list bytes * bytes) * (Z * option Z) :=
+  let l := lsb_from lsbdata in ((lsb_json l, lsb_text_line l), (pid_from status, microcode_from cpuinfo)).
